@@ -19,7 +19,7 @@ Open Scope list_scope.
 Theorem C10_stop :
   forall cfg l r a la ra,
     anchor_merge_mode cfg = Ok KStop ->
-    ad_get a (scan_anchors l []) = Some la -> ad_get a (scan_anchors r []) = Some ra ->
+    ad_get a (an_scan_anchors l []) = Some la -> ad_get a (an_scan_anchors r []) = Some ra ->
     anchors_match la ra = false ->
     forall res, resolve_conflicts cfg l r <> Ok res.
 Proof. exact resolve_stop_refuses. Qed.
@@ -31,7 +31,7 @@ Theorem C10_left :
   forall cfg l r l' r' a la ra,
     anchor_merge_mode cfg = Ok KLeft ->
     keys_plain l = true -> keys_plain r = true -> scalar_anchors l -> scalar_anchors r ->
-    ad_get a (scan_anchors l []) = Some la -> ad_get a (scan_anchors r []) = Some ra ->
+    ad_get a (an_scan_anchors l []) = Some la -> ad_get a (an_scan_anchors r []) = Some ra ->
     anchors_match la ra = false ->
     resolve_conflicts cfg l r = Ok (l', r') ->
     all_read a la r'.
@@ -44,7 +44,7 @@ Theorem C10_right :
   forall cfg l r l' r' a la ra,
     anchor_merge_mode cfg = Ok KRight ->
     keys_plain l = true -> scalar_anchors r ->
-    ad_get a (scan_anchors l []) = Some la -> ad_get a (scan_anchors r []) = Some ra ->
+    ad_get a (an_scan_anchors l []) = Some la -> ad_get a (an_scan_anchors r []) = Some ra ->
     resolve_conflicts cfg l r = Ok (l', r') ->
     all_read a ra l'.
 Proof. exact resolve_right_reads_right. Qed.
@@ -103,13 +103,13 @@ Definition ex_r : node :=
 
 Example C10_example_hypotheses :
   keys_plain ex_l = true /\ keys_plain ex_r = true /\
-  ad_get "x" (scan_anchors ex_l []) = Some ex_lx /\ ad_get "x" (scan_anchors ex_r []) = Some ex_rx /\
+  ad_get "x" (an_scan_anchors ex_l []) = Some ex_lx /\ ad_get "x" (an_scan_anchors ex_r []) = Some ex_rx /\
   anchors_match ex_lx ex_rx = false.
 Proof. repeat split; reflexivity. Qed.
 
 Example C10_example_scalar_anchors : scalar_anchors ex_l /\ scalar_anchors ex_r.
 Proof.
-  split; intros k n; vm_compute scan_anchors; simpl.
+  split; intros k n; vm_compute an_scan_anchors; simpl.
   - destruct (String.eqb k "x"); intros H; inversion H; reflexivity.
   - destruct (String.eqb k "x"); [intros H; inversion H; reflexivity|].
     destruct (String.eqb k "y"); intros H; inversion H; reflexivity.
@@ -174,7 +174,7 @@ Qed.
    misses anchors: an anchored Array that is an ELEMENT of an Array is not recorded by
    scan_for_anchors (known finding F-C10-1; witness  [&l [1]] ) *)
 Theorem C10_anchored_array_element_unseen_refuted :
-  exists d, (exists i e, d = NSeq i [e] /\ an_name e = Some "l") /\ scan_anchors d [] = [].
+  exists d, (exists i e, d = NSeq i [e] /\ an_name e = Some "l") /\ an_scan_anchors d [] = [].
 Proof.
   exists (NSeq (mkinfo 2 None true None)
                [NSeq (mkinfo 3 (Some "l") true None) [lf 4 None (PInt 1)]]).
